@@ -453,7 +453,7 @@ func (h *c08) resultsPoints(nMed, nBig int) {
 		h.run("internal.SM2Point.MultiSelectXY", fmt.Sprintf("rem/bits%d", bits), bits > 1, []string{vPoint(sm2.VerifNewPoint()), vTable2(rem), "15", fmt.Sprint(bits)}, two(q))
 	}
 	// MultiSelectXYZ on the table TransformPrecomputed builds in ScalarMult is covered through ScalarMult
-	for i := 0; i < nMed*2/3; i++ {
+	for i := 0; i < nMed/2; i++ {
 		k := h.secretBytes(32, i)
 		p, err := sm2.VerifScalarBaseMult(k)
 		impl := "ok " + vZeroPoint + " 1"
@@ -491,22 +491,44 @@ func (h *c08) resultsPoints(nMed, nBig int) {
 	}
 }
 
+func vTape(chunks ...[]byte) string {
+	var all []byte
+	for _, c := range chunks {
+		all = append(all, c...)
+	}
+	return fmt.Sprintf("tape=x%x", all)
+}
+
 func (h *c08) resultsEntry(nBig int) {
+	zero := make([]byte, 32)
+	ff := make([]byte, 32)
+	for i := range ff {
+		ff[i] = 0xff
+	}
+	nb := be32(curveN)
+	nm1 := be32(new(big.Int).Sub(curveN, big.NewInt(1)))
 	for i := 0; i < nBig+1; i++ {
 		priv := h.validScalar(i)
 		x, y, err := sm2.DerivePublic(priv)
 		h.run("sm2.DerivePublic", fmt.Sprintf("pattern%d", i%6), false, []string{vBytes(priv)}, "ok "+vInts(x)+" "+vInts(y)+" "+errFlag(err))
-		// GenerateKey / SignHashed: the reader is the public handle 1; what it delivers is the driver's tape
 		if h.quick && i >= 2 {
 			continue
 		}
-		rd := "tape=" + new(big.Int).SetBytes(priv).String() + " 1"
-		p2, gx, gy, err := sm2.GenerateKey(&scriptReader{items: dataScript(priv)})
-		h.run("sm2.GenerateKey", "valid", false, []string{rd}, "ok "+vInts(p2)+" "+vInts(gx)+" "+vInts(gy)+" "+errFlag(err))
-		K := h.validScalar(i + 3)
+		// GenerateKey / SignHashed: the reader is the public handle 1; what it delivers is the driver's tape,
+		// 32 bytes per read.  i = 0: no rejected candidate; i = 1: rejected candidates first (redraws / retries)
+		keys := [][]byte{priv}
+		nonces := [][]byte{h.validScalar(i + 3)}
+		class := "valid"
+		if i%2 == 1 {
+			keys = [][]byte{zero, nm1, ff, priv}
+			nonces = [][]byte{ff, zero, nb, nonces[0]}
+			class = "retries"
+		}
+		p2, gx, gy, err := sm2.GenerateKey(&scriptReader{items: dataScript(keys...)})
+		h.run("sm2.GenerateKey", class, false, []string{vTape(keys...), "1"}, "ok "+vInts(p2)+" "+vInts(gx)+" "+vInts(gy)+" "+errFlag(err))
 		e := h.c.rng.Bytes(32)
-		r, s, err := sm2.SignHashed(&scriptReader{items: dataScript(K, K, K, K)}, priv, e)
-		h.run("sm2.SignHashed", "valid", false, []string{"tape=" + new(big.Int).SetBytes(K).String(), "1", vBytes(priv), vBytes(e)}, "ok "+vInts(r)+" "+vInts(s)+" "+errFlag(err))
+		r, s, err := sm2.SignHashed(&scriptReader{items: dataScript(nonces...)}, priv, e)
+		h.run("sm2.SignHashed", class, false, []string{vTape(nonces...), "1", vBytes(priv), vBytes(e)}, "ok "+vInts(r)+" "+vInts(s)+" "+errFlag(err))
 	}
 }
 
@@ -645,7 +667,7 @@ func (h *c08) tracePairs(nSmall, nMed, nBig int) {
 	}
 	// scalar multiplications: leading zero / 0xFF bytes, 1, n-1, random
 	ks := [][]byte{be32(big.NewInt(1)), be32(new(big.Int).Sub(curveN, big.NewInt(1))), make([]byte, 32)}
-	for i := 0; i < nMed/2; i++ {
+	for i := 0; i < nMed/3; i++ {
 		ks = append(ks, h.secretBytes(32, i))
 	}
 	for i := 1; i < len(ks); i++ {
@@ -663,36 +685,34 @@ func (h *c08) tracePairs(nSmall, nMed, nBig int) {
 		}
 		h.pair("internal.ScalarMult", fmt.Sprintf("len%d", len(k1)), []string{vPoint(P1), vBytes(k1)}, []string{vPoint(P2), vBytes(k2)}, "")
 	}
-	// entry points: two keys / two nonces (delivered by the two external worlds: the driver's tape; the
-	// reader handle is the same public value)
-	tape := func(b []byte) string { return "tape=" + new(big.Int).SetBytes(b).String() }
+	// entry points: two keys / two nonce streams, delivered by the two external worlds (the driver's
+	// tape, 32 bytes per read); the reader handle is the same public value.  Streams with 0, 1 and 2
+	// rejected candidates first — rejected at the same positions for the same reason, so that the
+	// verdict lists are equal.
+	zero := make([]byte, 32)
+	ff := make([]byte, 32)
+	for i := range ff {
+		ff[i] = 0xff
+	}
+	nb := be32(curveN)
+	nm1 := be32(new(big.Int).Sub(curveN, big.NewInt(1)))
+	np5 := be32(new(big.Int).Add(curveN, big.NewInt(5)))
 	d1, d2 := h.validScalar(0), h.validScalar(4)
 	h.pair("sm2.DerivePublic", "keys", []string{vBytes(d1)}, []string{vBytes(d2)}, "")
-	h.pair("sm2.GenerateKey", "keys", []string{tape(d1), "1"}, []string{tape(d2), "1"}, "")
-	// SignHashed: since 3579533 r+k and 1+d are encoded on fixed-width buffers (big.Int.FillBytes), so no
-	// secret-dependent big.Int length remains.  What is left of the math/big shape assumption of the
-	// soundness theorem (OracleRel) is ensure32Bytes on the OUTPUTS r and s: `i.Bytes()` and
-	// `copy(buf[32-len(bytes):], bytes)` make the byte lengths of r and s slice bounds.  r and s are the
-	// public signature; the IR labels every math/big result secret, so the theorem covers pairs of runs
-	// whose r and s have the same byte length, and so does this comparison: pairs where they differ
-	// (a leading zero byte in r or s, probability 1/128) are counted, not compared.
+	h.pair("sm2.GenerateKey", "keys", []string{vTape(d1), "1"}, []string{vTape(d2), "1"}, "")
+	h.pair("sm2.GenerateKey", "redraw1", []string{vTape(nm1, d1), "1"}, []string{vTape(ff, d2), "1"}, "")
+	h.pair("sm2.GenerateKey", "redraw2", []string{vTape(zero, nb, d1), "1"}, []string{vTape(zero, np5, d2), "1"}, "")
+	// SignHashed: what remains of the math/big shapes is ensure32Bytes on the OUTPUTS r and s: the byte
+	// lengths of r and s are declassified (site 14: public outputs), so pairs on which they differ have
+	// different verdict lists and are skipped by `pair` itself (a leading zero byte, probability 1/128).
 	e := c.rng.Bytes(32)
-	shapes := func(K []byte) string {
-		r, s2, err := sm2.SignHashed(&scriptReader{items: dataScript(K, K, K, K)}, d1, e)
-		if err != nil {
-			return "err"
-		}
-		return fmt.Sprintf("%d/%d", len(new(big.Int).SetBytes(r).Bytes()), len(new(big.Int).SetBytes(s2).Bytes()))
-	}
-	done := 0
-	for i := 0; i < 40 && done < 2; i++ {
-		K1, K2 := h.validScalar(5+i), h.validScalar(2+i)
-		if shapes(K1) != shapes(K2) {
-			c.res.Classes["trace/sm2.SignHashed/output-lengths-differ"]++
-			continue
-		}
-		if h.pair("sm2.SignHashed", "nonces/"+shapes(K1), []string{tape(K1), "1", vBytes(d1), vBytes(e)}, []string{tape(K2), "1", vBytes(d1), vBytes(e)}, "") {
-			done++
+	pre := [][2][][]byte{{nil, nil}, {{ff}, {nb}}, {{np5, zero}, {ff, zero}}}
+	for v, pp := range pre {
+		for i, done := 0, false; i < 20 && !done; i++ {
+			K1, K2 := h.validScalar(5+i+v), h.validScalar(2+i+v)
+			s1 := append(append([][]byte{}, pp[0]...), K1)
+			s2 := append(append([][]byte{}, pp[1]...), K2)
+			done = h.pair("sm2.SignHashed", fmt.Sprintf("retries%d", v), []string{vTape(s1...), "1", vBytes(d1), vBytes(e)}, []string{vTape(s2...), "1", vBytes(d1), vBytes(e)}, "")
 		}
 	}
 }
